@@ -702,6 +702,9 @@ func buildStubs() map[string]stubFn {
 	m["math/rand.Seed"] = zeroStub
 	m["(*math/rand.Rand).Seed"] = zeroStub
 
+	// settings: no overwrite file present (soft/static settings keep their defaults)
+	m["github.com/youzan/ZanRedisDB/settings.overwriteSettingsWithFile"] = zeroStub
+
 	// ---- misc runtime ----
 	m["runtime.Caller"] = zeroStub
 	m["runtime.Callers"] = zeroStub
